@@ -5,7 +5,7 @@ from harness import dtwgen
 
 COQ_FILES = ["theories/BandTie.v", "theories/PyWps.v", "theories/PyWpsProofs.v", "gen/Gen_cfill.v", "gen/Gen_cexpand.v",
              "theories/CFill.v", "theories/CExpand.v", "theories/CFillSim.v", "gen/Gen_pywps.v", "theories/PyWpsGen.v",
-             "gen/Gen_cwpsk.v", "theories/CWpsCanon.v", "theories/CWpsKernel.v", "theories/CWpsTie.v", "theories/CWpsCanonEu.v", "theories/CWpsValue.v", "theories/CWpsSpec.v", "theories/CWpsTieEu.v", "theories/CWpsSpecEu.v", "theories/CWpsFinal.v", "props/C04.v"]
+             "gen/Gen_cwpsk.v", "gen/Gen_cexpw.v", "theories/CWpsCanon.v", "theories/CWpsKernel.v", "theories/CWpsTie.v", "theories/CWpsCanonEu.v", "theories/CWpsValue.v", "theories/CWpsSpec.v", "theories/CWpsTieEu.v", "theories/CWpsSpecEu.v", "theories/CWpsFinal.v", "props/C04.v"]
 THEOREMS = [("DVProps.C04", "C04_cell_lower_bound"), ("DVProps.C04", "C04_cell_attained"),
             ("DVProps.C04", "C04_matrix_shape"), ("DVProps.C04", "C04_out_of_band_inf"),
             ("DVProps.C04", "C04_code_matrix_is_spec"), ("DVProps.C04", "C04_code_matrix_with_bound"),
@@ -38,7 +38,9 @@ TRUSTED_BASE = [
     "when asked (C04_c_wps_kernel_returns_the_dtw_value); the same for the Euclidean twin "
     "(C04_c_wps_euclidean_kernel_as_written); the bounded run (pruning by max_dist) and the -1 marks of the kernels are "
     "regenerated too and tied by correspondence (site c.wpsk: extracted regenerated kernels vs the compiled ones, "
-    "cell by cell); dtw_expand_wps and the Python-side unpacking stay hand-modelled and tied by correspondence",
+    "cell by cell); dtw_expand_wps_slice is regenerated whole as well (Gen_cexpw.v) and compared with the compiled routine "
+    "on the whole matrix and on random slices of every c.wpsk case; the Python-side unpacking stays hand-modelled and "
+    "tied by correspondence",
     "binary64 arithmetic exact on the integer-valued stream; sqrt correctly rounded",
 ]
 ASSUMPTIONS = ["exact arithmetic", "freedom of the property applied in judge(): cells above max_dist may be inf or "
@@ -81,7 +83,13 @@ def wpsk_case(rng, maxlen):
     # integer model can only follow it on perfect squares)
     flags = {"return_dtw": rng.random() < 0.9, "keep_int_repr": True if variant == 0 else rng.random() < 0.5,
              "psi_neg": rng.random() < 0.5}
-    return {"site": "c.wpsk", "variant": variant, "ndim": nd, "r": r, "c": c, "s1": s1, "s2": s2, "cst": st, "flags": flags,
+    # blocks of the full matrix expanded from the compact array: the whole matrix and two random slices
+    sl = [[0, r + 1, 0, c + 1]]
+    for _ in range(2):
+        rb = rng.randint(0, r)
+        cb = rng.randint(0, c)
+        sl.append([rb, rng.randint(rb + 1, r + 1), cb, rng.randint(cb + 1, c + 1)])
+    return {"site": "c.wpsk", "variant": variant, "ndim": nd, "r": r, "c": c, "s1": s1, "s2": s2, "cst": st, "flags": flags, "kslices": sl,
             "psi_neg": flags["psi_neg"], "keep_int_repr": flags["keep_int_repr"], "p1b": psi[0], "p1e": psi[1], "p2b": psi[2], "p2e": psi[3],
             "settings": {"window": st["window"] or None, "psi": psi, "penalty": st["penalty"], "max_step": st["max_step"],
                          "max_dist": st["max_dist"], "use_pruning": st["use_pruning"], "max_length_diff": None,
@@ -91,10 +99,11 @@ def wpsk_case(rng, maxlen):
 def wpsk_line(c):
     st, fl = c["cst"], c["flags"]
     flat = lambda s: " ".join(str(int(v)) for p in s for v in p)
-    return "cwpsk %d %d %d %d %d %d %d %d %d %d %d %d %d %d %d %d %s %d %s" % (
+    return "cwpsk %d %d %d %d %d %d %d %d %d %d %d %d %d %d %d %d %s %d %s %d %s" % (
         c["variant"], st["window"], st["max_dist"], st["max_step"], st["penalty"], st["psi"][0], st["psi"][1], st["psi"][2],
         st["psi"][3], int(st["use_pruning"]), int(st["only_ub"]), int(fl["return_dtw"]), int(fl["keep_int_repr"]),
-        int(fl["psi_neg"]), c["ndim"], len(c["s1"]), flat(c["s1"]), len(c["s2"]), flat(c["s2"]))
+        int(fl["psi_neg"]), c["ndim"], len(c["s1"]), flat(c["s1"]), len(c["s2"]), flat(c["s2"]),
+        len(c["kslices"]), " ".join("%d %d %d %d" % tuple(x) for x in c["kslices"]))
 
 
 def gen_cases(rng, tier):
@@ -227,7 +236,14 @@ def impl_run(case):
         f.argtypes = L.dtw_warping_paths_ndim.argtypes
         v = f(buf, a, len(case["s1"]), b, len(case["s2"]), fl["return_dtw"], fl["keep_int_repr"], fl["psi_neg"], case["ndim"],
               ctypes.byref(st))
-        return {"v": v, "cells": list(buf)}
+        # dtw_expand_wps_slice on that compact array, into exact-size blocks pre-filled with 555
+        blocks = []
+        for rb, re, cb, ce in case["kslices"]:
+            m = (re - rb) * (ce - cb)
+            full = (craw.seq_t * m)(*([555.0] * m))
+            L.dtw_expand_wps_slice(buf, full, len(case["s1"]), len(case["s2"]), rb, re, cb, ce, ctypes.byref(st))
+            blocks.append(list(full))
+        return {"v": v, "cells": list(buf), "blocks": blocks}
     res = dtwimpl.run(case)
     if site != "c.wps_compact" or not isinstance(res, dict):
         return res
@@ -367,7 +383,8 @@ def judge_wpsk(case, g, exp):
     a = exp["wpsk"]
     if a.startswith("ERR"):
         return {"kind": "oracle-error", "detail": a}
-    head, cells, okflag = a.split(" | ")
+    parts = a.split(" | ")
+    head, cells, okflag = parts[:3]
     if okflag != "ok":
         return {"kind": "wpsk:regenerated-kernel-reports-out-of-bounds-access", "model": head}
     tag, val = head.split()
@@ -382,6 +399,17 @@ def judge_wpsk(case, g, exp):
     for k, (x, y) in enumerate(zip(g["cells"], mc)):
         if float(x) != float(y):
             return {"kind": "wpsk:cell-differs-from-regenerated-kernel", "slot": k, "c": float(x), "model": y}
+    # the expanded blocks (the regenerated dtw_expand_wps_slice applied to the regenerated kernel's array)
+    for n, (sl, blk) in enumerate(zip(case["kslices"], g["blocks"])):
+        mcells, mok = parts[3 + 2 * n], parts[4 + 2 * n]
+        if mok != "ok":
+            return {"kind": "wpsk:regenerated-expand-reports-out-of-bounds-access", "slice": sl}
+        mb = [math.inf if t == "inf" else int(t) for t in mcells.split()]
+        if len(mb) != len(blk):
+            return {"kind": "wpsk:expand-block-length", "slice": sl}
+        for k, (x, y) in enumerate(zip(blk, mb)):
+            if float(x) != float(y):
+                return {"kind": "wpsk:expanded-cell-differs-from-regenerated-expand", "slice": sl, "index": k, "c": float(x), "model": y}
     return None
 
 
